@@ -89,7 +89,7 @@ def run(ctx):
                 ctx.failures.append(dict(f, case=payload))
             records.append((payload, c["params"], steps, list(w.hist), w, c.get("expect", {})))
         if not ctx.replay:
-            nwalks, lo, hi = (8, 100, 300) if ctx.tier == "quick" else (80, 200, 1500)
+            nwalks, lo, hi = (8, 140, 320) if ctx.tier == "quick" else (80, 200, 1500)
             budget = 30 if ctx.tier == "quick" else 1200
             for k in range(nwalks):
                 if time.time() - t0 > budget:
@@ -97,7 +97,7 @@ def run(ctx):
                     break
                 params = W.gen_params(rng, ctx.tier, for_c09=True)
                 profile = rng.choice(["retry", "retry", "retry", "service", "lossy", "crash", "steady", "elections"])
-                prefix = W.scripted_election(params["n"], rng.randint(1, params["n"])) if rng.random() < 0.8 else ()
+                prefix = W.scripted_election(params["n"], rng.randint(1, params["n"])) if rng.random() < 0.95 else ()
                 res = W.walk(h, rng, params, rng.randint(lo, hi), profile, prefix=prefix)
                 payload = {"params": params, "events": res.intended, "picks": res.picks, "profile": profile}
                 for f in res.failures:
